@@ -27,6 +27,7 @@ TStep(e) ==
     \/ e.op = "addplayer" /\ AddPlayer
     \/ e.op = "score" /\ Score
     \/ e.op = "var" /\ SetVar(e.kind)
+    \/ e.op = "pvar" /\ PVar(e.kind, e.n, e.fb)
     \/ e.op = "awardeb" /\ AwardEB
     \/ e.op = "lb" /\ LB(e.dev, e.kind, e.k)
     \/ e.op = "shot" /\ Shot(e.i, e.kind)
